@@ -74,6 +74,14 @@ func header(data []byte) (hdr int, length int, constructed bool, err error) {
 // Check walks all elements in data (recursively for constructed ones) and
 // fails if any declared length exceeds the bytes actually present.
 func Check(data []byte) error {
+	return CheckContainers(data, nil)
+}
+
+// CheckContainers is Check for a decoder that does not look at the
+// constructed bit: container tells, for an identifier octet, whether that
+// decoder parses the content of such an element as further elements anyway.
+// Those are walked as well.
+func CheckContainers(data []byte, container func(identifier byte) bool) error {
 	for len(data) > 0 {
 		hdr, length, constructed, err := header(data)
 		if err != nil {
@@ -84,8 +92,8 @@ func Check(data []byte) error {
 			return ErrTruncated
 		}
 
-		if constructed {
-			if err := Check(data[hdr : hdr+length]); err != nil {
+		if constructed || (container != nil && container(data[0])) {
+			if err := CheckContainers(data[hdr:hdr+length], container); err != nil {
 				return err
 			}
 		}
